@@ -40,6 +40,10 @@ C04exact == (step = 1 /\ Mode = "mc") => \A pending \in SUBSET Cats :
                /\ Applied(cfg, FALSE, RepairedXdist, pending) = UserApproved(cfg) \cap pending
                \* a worker process exists only if the controller did not stop with a usage error
                /\ ((cfg.xdist = "n2" /\ ~UsageError(cfg, FALSE, RepairedXdist)) => Applied(cfg, TRUE, RepairedXdist, pending) = {})
+\* a persisted external is removed only by an approved trim (a category flag; review has no question for it)
+C04external == (step = 1 /\ Mode = "mc") =>
+                  /\ TrimsExternals(cfg, FALSE, RepairedXdist) => "trim" \in UserApproved(cfg)
+                  /\ (cfg.xdist = "n2" /\ ~UsageError(cfg, FALSE, RepairedXdist)) => ~TrimsExternals(cfg, TRUE, RepairedXdist)
 \* nothing is approved => nothing influences the comparisons either, unless review is active
 C04quiet == (step = 1 /\ Mode = "mc" /\ UserApproved(cfg) = {} /\ "review" \notin Flags(cfg) /\ "short-report" \notin Flags(cfg))
                             => U(cfg, FALSE, RepairedXdist) = {}
@@ -64,6 +68,7 @@ EmitAll == (Mode = "emit" /\ step = 1) =>
                  asked |-> CatSeq(Asked(c, FALSE, RepairedXdist, Cats)),
                  worker_applied |-> CatSeq(IF c.xdist = "n2" /\ ~UsageError(c, FALSE, RepairedXdist)
                                            THEN Applied(c, TRUE, RepairedXdist, Cats) ELSE {}),
+                 ext_removed |-> TrimsExternals(c, FALSE, RepairedXdist),
                  approved |-> CatSeq(UserApproved(c))]
   IN JsonSerialize(IOEnv.OUT_DIR \o "/cli_" \o ToString(cid) \o ".json", [cases |-> SetToSeq({one(rs[n]) : n \in sel})])
 =============================================================================
